@@ -18,8 +18,9 @@ RESOURCE = {"no-termination", "resource-exhaustion"}
 def run(rep, tier, seed):
     thorough = tier == "thorough"
     rep.assumptions += ["spec/Budget.tla: charge before work (plain 1, dice batch n, every round of an exploding pool, call +100), error in the step that exceeds; TLC checks Accounting, FailClosed, BoundedWork, Monotone, Terminates for every adversarial instruction sequence (and that BoundedWork FAILS when rounds are not charged, the behaviour of the pinned code)",
-                        "work = instructions dispatched at every depth (H1) + dice rolled (H2); bounds are checked with slack K=6, C=2000: a CoC/Fate instruction rolls 2-4 dice for one op, a call adds 100",
-                        "every case runs in a child process with ceilings 12 s and 1.5 GB heap; budgets 300 and 30000 (recommended), parse budget 10^7 (recommended) except in the parse-budget family; normal, max and min mode",
+                        "spec/apalache/BudgetInd.tla: the invariants of Budget as an inductive invariant for unconstrained Limit and MaxBatch, discharged by Apalache on every run",
+                        "work = instructions dispatched at every depth (H1) + dice rolled (H2); bounds are checked with slack: work <= 1.5*limit + 200 at the end and work <= 2*ops + 200 at every dispatch (a CoC/Fate instruction rolls 2-4 dice for one op; measured on the repaired tree: work <= limit and work <= 2*ops always)",
+                        "every case runs in a child process with ceilings 45 s and 1.5 GB heap; budgets 300 and 30000 (recommended), parse budget 10^7 (recommended) except in the parse-budget family; normal, max and min mode",
                         "families: unbounded loops/recursion (also through computed values, templates, callbacks), huge dice counts, exploding WoD/DC pools (low add line, huge sides, max mode), doubling strings and containers, "
                         "budget sweep: corpus and generated programs under budgets 1..400 against their own run under budget 200000 (stopped with the budget error, or the same value/error); "
                         "long sums around the 8192-instruction buffer, block/template/parenthesis/array nesting around 20, operand counts around 1000, long sources under small parse budgets",
@@ -30,6 +31,19 @@ def run(rep, tier, seed):
         if not r2.inv_violation:
             raise MachineryError("Budget with uncounted rounds should violate BoundedWork (sensitivity of the model)")
         rep.set("states", r1.distinct); rep.set("transitions", r1.generated)
+        # the same invariants for ALL limits and batch sizes: an inductive invariant discharged by Apalache
+        import shutil, subprocess
+        wd = w.path("apalache"); os.makedirs(wd)
+        shutil.copy(os.path.join(vlib.SPEC, "apalache", "BudgetInd.tla"), wd)
+        for name, a in (("base", ["--init=Init", "--length=0"]), ("step", ["--init=IndInit", "--length=1"])):
+            try:
+                pr = subprocess.run(["apalache-mc", "check", "--cinit=ConstInit", "--inv=IndInv", "--out-dir=" + os.path.join(wd, "out_" + name)] + a + ["BudgetInd.tla"],
+                                    cwd=wd, capture_output=True, text=True, timeout=900)
+            except subprocess.TimeoutExpired:
+                raise MachineryError("apalache timed out on BudgetInd (%s)" % name)
+            if "EXITCODE: OK" not in pr.stdout or "NoError" not in pr.stdout and "no error" not in pr.stdout:
+                raise MachineryError("apalache did not discharge BudgetInd (%s):\n%s" % (name, (pr.stdout + pr.stderr)[-2500:]))
+        rep.set("inductive_invariant", "BudgetInd!IndInv (Accounting, FailClosed, BoundedWork) holds initially and is preserved by every action, for all Limit and MaxBatch (Apalache, lengths 0 and 1)")
         ev = w.path("ev.ndjson")
         args = ["c07-exec", "-out", ev, "-workers", "12"] + (["-thorough"] if thorough else [])
         run_vh(args, env={"VERIF_SEED": str(seed)}, timeout=6000)
@@ -74,7 +88,7 @@ def run(rep, tier, seed):
         capb = next(e for e in clean if e["hasExpect"] and not e["err"])
         muts = []
         e1 = json.loads(json.dumps(base)); e1["err"] = False; muts.append(("error of an over-budget run removed", e1))
-        e2 = json.loads(json.dumps(base)); e2["rolls"] = e2["rolls"] + 7 * e2["limit"] + 3000; muts.append(("rolls beyond the bound added", e2))
+        e2 = json.loads(json.dumps(base)); e2["rolls"] = e2["rolls"] + 2 * e2["limit"] + 3000; muts.append(("rolls beyond the bound added", e2))
         e3 = json.loads(json.dumps(capb)); e3["ret"] = e3["ret"] + "0"; muts.append(("value of a capacity case altered", e3))
         e4 = json.loads(json.dumps(base)); e4["monotone"] = False; muts.append(("counter decrease reported", e4))
         t2 = w.path("corrupt.ndjson"); vlib.write_ndjson(t2, [m[1] for m in muts])
